@@ -101,6 +101,7 @@ template<bool soft> struct CVm : CompiledVm<AlignedAllocator<CacheLineSize>, sof
 
 static void nop_fill(Prog& P, Rng& rng) { for (int i = 0; i < 384; ++i) { uint8_t* w = P.buf + 128 + 8 * i; w[0] = (uint8_t)(76 + rng.below(8)); w[1] = (uint8_t)rng.next(); w[2] = (uint8_t)rng.next(); w[3] = (uint8_t)rng.next(); uint32_t z = rng.below(2) ? 0u : (1u << rng.below(32)); memcpy(w + 4, &z, 4); } }
 
+static std::string g_targets;
 static void emit_run(const char* engine, bool soft, bool v2, unsigned n, uint32_t fprc0, const Prog& P, const Result& R, bool withProgram, const char* tag) {
 	Line l;
 	l.str("e", "run").str("tag", tag).str("engine", engine).boolean("soft", soft).boolean("v2", v2).num("n", n).num("fprc0", fprc0).w64("patS", g_patS).w64("patD", g_patD);
@@ -109,7 +110,7 @@ static void emit_run(const char* engine, bool soft, bool v2, unsigned n, uint32_
 		int size = v2 ? 384 : 256;
 		std::string ws = "[";
 		for (int i = 0; i < size; ++i) { if (i) ws += ","; ws += json_bytes(P.buf + 128 + 8 * i, 8); }
-		l.raw("words", ws + "]");
+		l.raw("words", ws + "]").raw("targets", g_targets);
 	}
 	l.boolean("first", !strcmp(engine, "interp") && soft);
 	l.limbs("reg", R.reg, 256).num("fprc", R.fprc).raw("writes", R.writes).num("nwrites", R.nwrites).w64("whash", R.whash).num("count", (long long)R.count).boolean("oob", R.oob);
@@ -179,7 +180,10 @@ int main(int argc, char** argv) {
 	auto all_engines = [&](const Prog& P, bool v2, unsigned n, uint32_t fprc0, bool withProgram, const char* tag) {
 		alarm(120);
 		g_patS = rng.next(); g_patD = rng.next();
-		ds_reset(); Result a = run_one<IVm<true>, false>(is, P, v2, n, fprc0, sp); emit_run("interp", true, v2, n, fprc0, P, a, withProgram, tag);
+		ds_reset(); Result a = run_one<IVm<true>, false>(is, P, v2, n, fprc0, sp);
+		// the interpreter's compiled bytecode: branch target of every CBRANCH (-2 for other instructions)
+		{ g_targets = "["; int size = v2 ? 384 : 256; for (int i = 0; i < size; ++i) { if (i) g_targets += ","; g_targets += std::to_string(is->bytecode[i].type == InstructionType::CBRANCH ? (int)is->bytecode[i].target : -2); } g_targets += "]"; }
+		emit_run("interp", true, v2, n, fprc0, P, a, withProgram, tag);
 		if (haveHard) { ds_reset(); Result b = run_one<IVm<false>, false>(ih, P, v2, n, fprc0, sp); emit_run("interp", false, v2, n, fprc0, P, b, false, tag); }
 		if (cs) { ds_reset(); Result c = run_one<CVm<true>, true>(cs, P, v2, n, fprc0, sp); emit_run("jit", true, v2, n, fprc0, P, c, false, tag); }
 		if (ch && haveHard) { ds_reset(); Result d = run_one<CVm<false>, true>(ch, P, v2, n, fprc0, sp); emit_run("jit", false, v2, n, fprc0, P, d, false, tag); }
